@@ -6,6 +6,7 @@ import PbBss.Proofs.EmCacg
 import PbBss.Proofs.EmNonVacuous
 import PbBss.Proofs.EmFull
 import PbBss.Proofs.EmGcacg
+import PbBss.Proofs.EmWatsonConvex
 /-! # C02 — EM iterations never decrease the mixture log-likelihood
 
 Statements only (helper lemmas: `PbBss/Proofs/{Em,EmProof,EmMono,EmGauss,EmWatson,EmCacg,GaussM,TrLogDet}.lean`).
@@ -22,8 +23,11 @@ cACG eigenvalue / quadratic-form floors inactive, Watson concentration not clipp
 quantity is the saliency-weighted log-likelihood `Σ_n s_n log Σ_k π_k p_k(y_n)` (DESIGN.md 5c).
 
 Gaps (not theorems here): (a) the Watson concentration in the code is a *spline* approximation of the exact inverse
-hypergeometric ratio — `TangentAt` states the exact M-step condition, and convexity of `log ₁F₁(1;D;·)` is not in
-Mathlib (`tangent_of_convex` reduces `TangentAt` to `ConvexOn` + `HasDerivAt`); (b) GCACGMM is covered by the product-family lemma (`product_mstep_Q`) but is not an instance of the executable EM
+hypergeometric ratio — `TangentAt` states the exact M-step condition; for the true log-normaliser
+`C + log ₁F₁(1;D;κ)` (`watsonLogNorm`, the cumulant generating function of a Beta(1, D−1) variable) it is PROVED from
+"the returned concentration solves `watsonRatio D κ = λ` exactly" (`watson_lognorm_convex`, `watson_tangent_exact`,
+`em_monotone_cwmm_exact`), so the only assumption left is the spline's approximation error, which the correspondence
+run measures; (b) GCACGMM is covered by the product-family lemma (`product_mstep_Q`) but is not an instance of the executable EM
 model (its trajectories are judged by the search on the real code); (c) floating-point rounding. -/
 namespace PbBss.C02
 open PbBss PbBss.Em PbBss.EmProof PbBss.EmCacg Finset
@@ -154,6 +158,43 @@ theorem watson_mstep_Q (pca : Tab D (Tab D ℂ) → Tab D ℂ × ℝ) (kinv lnor
 theorem watson_tangent_of_convex (f : ℝ → ℝ) (x0 f' : ℝ) (hc : ConvexOn ℝ Set.univ f) (hd : HasDerivAt f f' x0) :
     TangentAt f x0 f' :=
   tangent_of_convex f x0 f' hc hd
+
+/-! ### The true Watson log-normaliser `C + log ₁F₁(1; D; κ)` (`PbBss/Proofs/EmWatsonConvex.lean`) -/
+
+/-- the kernel `(D−1)∫₀¹ e^{κt}(1−t)^{D−2} dt` IS the hypergeometric series `₁F₁(1; D; κ) = Σ_n κⁿ/(D)_n` that
+`log_norm_1f1` evaluates through `scipy.special.hyp1f1` -/
+theorem watson_kernel_is_1F1 (D : ℕ) (hD : 2 ≤ D) (κ : ℝ) :
+    watsonKernel D κ = ∑' n, κ ^ n / ∏ j ∈ Finset.range n, ((D : ℝ) + j) :=
+  watsonKernel_eq_tsum D hD κ
+
+/-- the log-normaliser is convex on all of ℝ (second derivative = variance under the exponentially tilted Beta law) -/
+theorem watson_lognorm_convex (D : ℕ) (hD : 2 ≤ D) (C : ℝ) : ConvexOn ℝ Set.univ (watsonLogNorm D C) :=
+  watsonLogNorm_convex D hD C
+
+/-- its derivative is the hypergeometric ratio (the model expectation of `|mᴴz|²`), which lies in `(0, 1)`, equals
+`1/D` at `κ = 0` and is strictly increasing — so the exact inverse the spline approximates is unique -/
+theorem watson_lognorm_deriv (D : ℕ) (hD : 2 ≤ D) (C κ : ℝ) :
+    HasDerivAt (watsonLogNorm D C) (watsonRatio D κ) κ ∧ 0 < watsonRatio D κ ∧ watsonRatio D κ < 1
+      ∧ watsonRatio D 0 = 1 / D ∧ StrictMono (watsonRatio D) :=
+  ⟨watsonLogNorm_hasDerivAt D hD C κ, watsonRatio_pos D hD κ, watsonRatio_lt_one D hD κ, watsonRatio_zero D hD,
+    watsonRatio_strictMono D hD⟩
+
+/-- the exact concentration update satisfies the M-step condition `TangentAt` — no convexity hypothesis left -/
+theorem watson_tangent_exact (D : ℕ) (hD : 2 ≤ D) (C : ℝ) (kinv : ℝ → ℝ) (lam : ℝ)
+    (hinv : watsonRatio D (kinv lam) = lam) : TangentAt (watsonLogNorm D C) (kinv lam) lam :=
+  EmProof.watson_tangent_exact D hD C kinv lam hinv
+
+/-- complex Watson M-step with the true log-normaliser: principal eigenvector + exact inverse ratio -/
+theorem watson_mstep_Q_exact (hD : 2 ≤ D) (C : ℝ) (pca : Tab D (Tab D ℂ) → Tab D ℂ × ℝ) (kinv : ℝ → ℝ)
+    (c aux : Fin N → ℝ) (z : Fin N → Fin D → ℂ) (θ : Watson ℝ ℂ D) (hC : 0 < ∑ n, c n)
+    (hunit : ∑ d, Complex.normSq (rd θ.mode d) = 1) (hk : 0 ≤ θ.kappa)
+    (hln : θ.logNorm = watsonLogNorm D C θ.kappa)
+    (hpca : PcaContract (rd2 (watsonScatter c z)) (pca (watsonScatter c z)))
+    (hinv : watsonRatio D (kinv (pca (watsonScatter c z)).2) = (pca (watsonScatter c z)).2) :
+    compQ (watsonFamily D pca kinv (watsonLogNorm D C)) c z θ
+      ≤ compQ (watsonFamily D pca kinv (watsonLogNorm D C)) c z
+          ((watsonFamily D pca kinv (watsonLogNorm D C)).mstep N c aux z) :=
+  watson_mstep_improves_exact hD C pca kinv c aux z θ hC hunit hk hln hpca hinv
 
 open Matrix in
 open scoped ComplexOrder MatrixOrder in
@@ -332,6 +373,35 @@ theorem em_monotone_cwmm (tiny : ℝ) (pca : Tab D (Tab D ℂ) → Tab D ℂ × 
   · rw [hc']; exact hv.1
   · rw [hc']; exact hkinv _
   · rw [hc']; exact hv.2
+
+/-- **cWMM with the true log-normaliser** `C + log ₁F₁(1; D; κ)`: the `TangentAt` hypothesis of `em_monotone_cwmm` is
+replaced by "the concentration map inverts the hypergeometric ratio exactly on the eigenvalues the stretch meets". -/
+theorem em_monotone_cwmm_exact (hD : 2 ≤ D) (C tiny : ℝ) (pca : Tab D (Tab D ℂ) → Tab D ℂ × ℝ) (kinv : ℝ → ℝ)
+    (rule : WeightRule) (tie : Tying N) (eps : ℝ)
+    (s : Fin N → ℝ) (z : Fin N → Fin D → ℂ) (γ₀ : Fin (K+1) → Fin N → ℝ) (htiny : 0 < tiny) (hs : ∀ n, 0 ≤ s n)
+    (heps : 0 ≤ eps) (hrule : rule = .mean → ∀ n, s n = 1) (hrule' : rule ≠ .tinyFloor)
+    (hγ₀ : ∀ k n, 0 ≤ γ₀ k n) (hγ₀1 : ∀ n, ∑ k, γ₀ k n ≤ 1) (a b : Nat) (ha : 1 ≤ a) (hab : a ≤ b)
+    (hpca : ∀ w : Fin N → ℝ, PcaContract (rd2 (watsonScatter w z)) (pca (watsonScatter w z)))
+    (hkinv : ∀ x, 0 ≤ kinv x)
+    (hw : ∀ i, a ≤ i → i ≤ b → ∀ k n,
+      0 < (fit tiny (watsonFamily D pca kinv (watsonLogNorm D C)) rule tie eps s z i γ₀).w k n)
+    (hclamp : ∀ i, a ≤ i → i < b →
+      ClampFree tiny (watsonFamily D pca kinv (watsonLogNorm D C))
+        (fit tiny (watsonFamily D pca kinv (watsonLogNorm D C)) rule tie eps s z i γ₀) z)
+    (hmass : ∀ i, a ≤ i → i < b → ∀ k,
+      0 < ∑ n, post (watsonFamily D pca kinv (watsonLogNorm D C))
+        (fit tiny (watsonFamily D pca kinv (watsonLogNorm D C)) rule tie eps s z i γ₀) z k n * s n)
+    (hinv : ∀ i, a ≤ i → i < b → ∀ k,
+      let c := fun n => post (watsonFamily D pca kinv (watsonLogNorm D C))
+        (fit tiny (watsonFamily D pca kinv (watsonLogNorm D C)) rule tie eps s z i γ₀) z k n * s n
+      watsonRatio D (kinv (pca (watsonScatter c z)).2) = (pca (watsonScatter c z)).2) :
+    logLik (watsonFamily D pca kinv (watsonLogNorm D C)) s
+        (fit tiny (watsonFamily D pca kinv (watsonLogNorm D C)) rule tie eps s z a γ₀) z
+      ≤ logLik (watsonFamily D pca kinv (watsonLogNorm D C)) s
+        (fit tiny (watsonFamily D pca kinv (watsonLogNorm D C)) rule tie eps s z b γ₀) z :=
+  em_monotone_cwmm tiny pca kinv (watsonLogNorm D C) rule tie eps s z γ₀ htiny hs heps hrule hrule' hγ₀ hγ₀1 a b ha hab
+    hpca hkinv hw hclamp hmass
+    (fun i h1 h2 k => EmProof.watson_tangent_exact D hD C kinv _ (hinv i h1 h2 k))
 
 /-- **cACGMM** (every `covariance_norm`): along any stretch of one fit on which the stored cACG parameters are valid
 (orthonormal eigenvectors, positive eigenvalues), `eigh` meets its contract and no floor is active (class mass,
